@@ -8,6 +8,7 @@ import (
 	"slices"
 	"strings"
 	"sync"
+	"sync/atomic"
 	"time"
 
 	"github.com/miekg/dns"
@@ -59,6 +60,31 @@ const (
 type cnameChaseDepthKeyType struct{}
 
 var cnameChaseDepthKey = &cnameChaseDepthKeyType{}
+
+// maxCnameChaseQueries bounds the sub-queries one client request may
+// spend chasing aliases, summed over every nesting level. The depth
+// counter above bounds nesting and each level bounds its own loop, but
+// a level that runs out of depth hands the rest of the chain back to
+// its caller, which resumes it one nested call per hop: a long chain
+// or an alias loop multiplied the two bounds (ten levels of ten hops)
+// instead of adding them, all of it answered from cache and therefore
+// invisible to every upstream budget.
+const maxCnameChaseQueries = 64
+
+type cnameChaseBudgetKeyType struct{}
+
+var cnameChaseBudgetKey = &cnameChaseBudgetKeyType{}
+
+// cnameChaseBudget returns the request tree's shared chase allowance,
+// planting it on first use.
+func cnameChaseBudget(ctx context.Context) (*atomic.Int32, context.Context) {
+	if b, ok := ctx.Value(cnameChaseBudgetKey).(*atomic.Int32); ok {
+		return b, ctx
+	}
+	b := new(atomic.Int32)
+	b.Store(maxCnameChaseQueries)
+	return b, context.WithValue(ctx, cnameChaseBudgetKey, b)
+}
 
 func cnameChaseDepth(ctx context.Context) int {
 	v, _ := ctx.Value(cnameChaseDepthKey).(int)
@@ -1924,6 +1950,7 @@ func (c *Cache) additionalAnswer(ctx context.Context, msg *dns.Msg) *dns.Msg {
 
 	cnameDepth := 10
 	targets := []string{}
+	chaseBudget, ctx := cnameChaseBudget(ctx)
 
 	if len(cnameReq.Question) > 0 {
 	lookup:
@@ -1937,6 +1964,13 @@ func (c *Cache) additionalAnswer(ctx context.Context, msg *dns.Msg) *dns.Msg {
 		}
 
 		targets = append(targets, target)
+
+		if chaseBudget.Add(-1) < 0 {
+			// The request has spent its alias allowance; what has been
+			// assembled so far is the answer, as when a level runs out
+			// of hops.
+			return msg
+		}
 
 		respCname, lineage, err := c.internalExchange(ctx, cnameReq)
 		if errors.Is(err, middleware.ErrRecursionWorkLimit) {
